@@ -13,7 +13,8 @@ use crate::model::{Ev, V};
 pub struct C19P;
 pub static C19: C19P = C19P;
 
-const NAMES: [&str; 6] = ["a", "b", "c", "main", "check_it", "t"];
+// (`test_a` / `test_t`: what a test block `a` / `t` could be called internally)
+const NAMES: [&str; 8] = ["a", "b", "c", "main", "check_it", "t", "test_a", "test_t"];
 
 #[derive(Clone, Debug)]
 struct TestSpec {
@@ -24,6 +25,8 @@ struct TestSpec {
     exits: Vec<(bool, bool, u8)>,
     final_accept: bool,
     calls_same_named_fn: bool,
+    /// the body builds an f-string with an interpolation
+    fstring: bool,
 }
 
 #[derive(Clone, Debug)]
@@ -34,6 +37,10 @@ struct Script {
     tests: Vec<TestSpec>,
     /// functions: (module, name, value)
     fns: Vec<(usize, String, i32)>,
+    /// per function: shaped like a test (no parameters, returns a rejecting `Verdict[(), ()]`), never called
+    fn_shaped_like_test: Vec<bool>,
+    /// the test blocks of a module stand before its functions
+    tests_first: bool,
 }
 
 fn decode(ctl: &[u8]) -> Script {
@@ -58,10 +65,22 @@ fn decode(ctl: &[u8]) -> Script {
         let n_exits = c.below(3);
         let exits = (0..n_exits).map(|_| (c.chance(90), c.chance(128), c.below(3) as u8)).collect();
         let has_fn = fns.iter().any(|(m, n, _)| *m == module && *n == name);
-        tests.push(TestSpec { module, name, tag: i as i32 + 1, exits, final_accept: c.chance(170), calls_same_named_fn: has_fn && c.chance(128) });
+        tests.push(TestSpec { module, name, tag: i as i32 + 1, exits, final_accept: c.chance(170), calls_same_named_fn: has_fn && c.chance(128), fstring: false });
     }
     let pkg_child = c.chance(70);
-    Script { pkg_child, n_modules, tests, fns }
+    let fn_shaped_like_test: Vec<bool> = fns.iter().map(|(_, n, _)| n != "main" && c.chance(50)).collect();
+    for t in tests.iter_mut() {
+        t.fstring = c.chance(90);
+        if t.calls_same_named_fn {
+            // the same-named function is called for its i32 value
+            let k = fns.iter().position(|(m, n, _)| *m == t.module && *n == t.name).unwrap();
+            if fn_shaped_like_test[k] {
+                t.calls_same_named_fn = false;
+            }
+        }
+    }
+    let tests_first = c.chance(100);
+    Script { pkg_child, n_modules, tests, fns, fn_shaped_like_test, tests_first }
 }
 
 fn cond_text(v: bool, style: u8) -> &'static str {
@@ -85,16 +104,22 @@ fn outcome(t: &TestSpec) -> bool {
 }
 
 fn render(s: &Script, m: usize, cli: bool) -> String {
-    let mut o = String::new();
-    for (fm, n, v) in &s.fns {
+    let mut fns_text = String::new();
+    for (k, (fm, n, v)) in s.fns.iter().enumerate() {
         if *fm == m {
             if n == "main" {
                 // keep `main` a plain fn() so that the CLI's `run` has an entry point
-                let _ = writeln!(o, "fn main() {{\n    print(\"ran-main-{v}\");\n}}");
+                let _ = writeln!(fns_text, "fn main() {{\n    print(\"ran-main-{v}\");\n}}");
+            } else if s.fn_shaped_like_test[k] {
+                let _ = writeln!(fns_text, "fn {n}() -> Verdict[(), ()] {{\n    reject\n}}");
             } else {
-                let _ = writeln!(o, "fn {n}() -> i32 {{ {v} }}");
+                let _ = writeln!(fns_text, "fn {n}() -> i32 {{ {v} }}");
             }
         }
+    }
+    let mut o = String::new();
+    if !s.tests_first {
+        o.push_str(&fns_text);
     }
     for t in &s.tests {
         if t.module != m {
@@ -110,6 +135,9 @@ fn render(s: &Script, m: usize, cli: bool) -> String {
         if t.calls_same_named_fn && t.name != "main" {
             let _ = writeln!(o, "    let same = {}();", t.name);
         }
+        if t.fstring {
+            let _ = writeln!(o, "    let fs{0} = f\"tag {{1 + {0}}} of {{true}}\";\n    if fs{0} == \"\" {{\n        reject\n    }}", t.tag);
+        }
         for (i, (v, acc, style)) in t.exits.iter().enumerate() {
             let verdict = if *acc { "accept" } else { "reject" };
             if i % 2 == 0 {
@@ -119,6 +147,9 @@ fn render(s: &Script, m: usize, cli: bool) -> String {
             }
         }
         let _ = writeln!(o, "    {}\n}}", if t.final_accept { "accept" } else { "reject" });
+    }
+    if s.tests_first {
+        o.push_str(&fns_text);
     }
     o
 }
@@ -219,11 +250,19 @@ impl W {
         // functions sharing a name with a test keep working
         {
             let mut pkg = crate::props::c06::build_tree(&fs).compile(&self.rt).map_err(|e| ("rejected".to_string(), host::render_report(&e)))?;
-            for (m, n, v) in &s.fns {
+            for (k, (m, n, v)) in s.fns.iter().enumerate() {
                 if n == "main" {
                     continue;
                 }
                 let path = if *m == 0 { n.clone() } else { format!("{}.{n}", mname(s, *m, false)) };
+                if s.fn_shaped_like_test[k] {
+                    // a function that merely looks like a test: never run as one, still callable from Rust
+                    let f = pkg.get_function::<fn() -> roto::Verdict<(), ()>>(&path).map_err(|e| ("get_function".to_string(), format!("{path}: {e}")))?;
+                    if !matches!(f.call(), roto::Verdict::Reject(())) {
+                        return Err(("function-shadowed-by-test".into(), format!("{path}() does not return its own value")));
+                    }
+                    continue;
+                }
                 let f = pkg.get_function::<fn() -> i32>(&path).map_err(|e| ("get_function".to_string(), format!("{path}: {e}")))?;
                 if f.call() != *v {
                     return Err(("function-shadowed-by-test".into(), format!("{path}() does not return its own value")));
